@@ -87,7 +87,9 @@ def print_part(chk, vh, quick):
         calls = 150 if quick else 600
         data = run_child(vh, threads, calls, stream, env)
         evs = tokenize(data)
-        expect = sum(4 if (c + t) % 17 in (0, 1, 2, 4) else 2 if (c + t) % 17 == 10 else (2 if env else 1) if (c + t) % 17 == 11 else 3
+        def kind(t, c):
+            return 13 if t % 4 == 0 and c % 2 == 0 else (c + t) % 17
+        expect = sum(4 if kind(t, c) in (0, 1, 2, 4) else 2 if kind(t, c) == 10 else (2 if env else 1) if kind(t, c) == 11 else 3
                      for t in range(1, threads + 1) for c in range(1, calls + 1))
         mode = "pass-through" if env else "strip"
         if env and b"\x1b[" not in data:
